@@ -18,7 +18,8 @@ func regoString(s string) string {
 	if err := enc.Encode(s); err != nil {
 		return "\"\""
 	}
-	return strings.TrimSuffix(b.String(), "\n")
+	// the policy language refuses U+FEFF anywhere in a module, even inside a string: written as an escape instead
+	return strings.ReplaceAll(strings.TrimSuffix(b.String(), "\n"), "\ufeff", "\\ufeff")
 }
 
 // regoStringContent is regoString without the surrounding quotes, for text spliced into a larger literal
